@@ -6,11 +6,11 @@ ASSUMPTIONS = B.ASSUMPTIONS
 ASPECTS = 'DR'
 RULE = ('random histories of 2-5 connections over two permission tables: per-connection scripts of AUTH (valid and ten invalid '
         'digest variants), SUBSCRIBE/UNSUBSCRIBE/PUBLISH (mostly permitted, some forbidden or spoofed), malformed frames; '
-        'streams cut at random (whole, per frame, per byte, inside headers, pipelined bursts of 1-4 whole frames); some plans add valid re-authentication under another identity and a directed scenario (subscribe, re-authenticate, leave, then others publish on every channel ever held); events interleaved at random with Lost, EOF, '
+        'streams cut at random (whole, per frame, per byte, inside headers, pipelined bursts of 1-4 whole frames); some plans add valid re-authentication under another identity and a directed scenario (subscribe, re-authenticate under an identity with other permissions, then either leave or stay and unsubscribe channels the new identity could not subscribe to; then others publish on every channel ever held); events interleaved at random with Lost, EOF, '
         'pause/resume-writing and clock ticks; non-trivial = at least one PUBLISH was delivered; distinct by event list. '
         'Compared with the Coq model on aspects %s; frame-normalised synchronous-store histories (one frame per read, or a read of several permitted frames) are '
         'also judged by harness/judge.py')
-PLAN = [(80, 1500, dict(profile='benign', chunking='bursts', nops=12), True), (30, 400, dict(profile='mixed', chunking='bursts', reauth=0.06, nops=10), True), (100, 2500, dict(profile='mixed', nops=12), False), (120, 2500, dict(profile='benign', chunking='frames', nops=12), True), (50, 1000, dict(profile='mixed', chunking='frames', nops=8), True)]
+PLAN = [(40, 600, dict(scenario='reauth_leave'), True), (80, 1500, dict(profile='benign', chunking='bursts', nops=12), True), (30, 400, dict(profile='mixed', chunking='bursts', reauth=0.06, nops=10), True), (100, 2500, dict(profile='mixed', nops=12), False), (120, 2500, dict(profile='benign', chunking='frames', nops=12), True), (50, 1000, dict(profile='mixed', chunking='frames', nops=8), True)]
 
 
 def run(ctx, res):
